@@ -41,12 +41,12 @@ SeqLess(a, b) == IF a = <<>> THEN b # <<>>
                  ELSE SeqLess(Tail(a), Tail(b))
 
 (* sort.Stable(recordSlice) : stable insertion by Key *)
-RECURSIVE InsertAt(_, _, _), SortRecs(_)
-InsertAt(sorted, r, i) ==
+RECURSIVE InsSorted(_, _, _), SortRecs(_)
+InsSorted(sorted, r, i) ==
   IF i > Len(sorted) THEN Append(sorted, r)
   ELSE IF SeqLess(r.key, sorted[i].key) THEN SubSeq(sorted, 1, i - 1) \o <<r>> \o SubSeq(sorted, i, Len(sorted))
-  ELSE InsertAt(sorted, r, i + 1)
-SortRecs(s) == IF s = <<>> THEN <<>> ELSE InsertAt(SortRecs(SubSeq(s, 1, Len(s) - 1)), s[Len(s)], 1)
+  ELSE InsSorted(sorted, r, i + 1)
+SortRecs(s) == IF s = <<>> THEN <<>> ELSE InsSorted(SortRecs(SubSeq(s, 1, Len(s) - 1)), s[Len(s)], 1)
 
 (* ---- the array ----------------------------------------------------------- *)
 EmptySlot == [base |-> 0, check |-> 0, single |-> FALSE, wild |-> FALSE]
